@@ -244,7 +244,7 @@ pub fn drive_drain<T: Elem, D: Iterator<Item = T> + DoubleEndedIterator + ExactS
             *ok = false;
         }
     };
-    let mut judge = |ctx: &mut Ctx, got: Option<T>, exp: Option<Mc>, how: &str, held: &mut Vec<T>, ok: &mut bool| {
+    let judge = |ctx: &mut Ctx, got: Option<T>, exp: Option<Mc>, how: &str, held: &mut Vec<T>, ok: &mut bool| {
         match (got, exp) {
             (Some(x), Some(m)) => {
                 if !T::IS_ZST && mc(&x) != m {
